@@ -235,6 +235,16 @@ func (p *Prog) durationMinutes(v ssa.Value) (*Poly, bool) {
 		if len(a) < 2 {
 			return nil, false
 		}
+		// (x/60, x%60) is x minutes again (Go's division truncates, the remainder keeps the sign)
+		if q, isQ := strip(a[0]).(*ssa.BinOp); isQ && q.Op == token.QUO {
+			if m, isM := strip(a[1]).(*ssa.BinOp); isM && m.Op == token.REM {
+				kq, okq := constInt(q.Y)
+				km, okm := constInt(m.Y)
+				if okq && okm && kq == 60 && km == 60 && (sameValue(q.X, m.X) || polyOf(q.X).equal(polyOf(m.X))) {
+					return polyOf(q.X), true
+				}
+			}
+		}
 		res := newPoly()
 		res.addScaled(polyOf(a[0]), 60)
 		res.addScaled(polyOf(a[1]), 1)
@@ -595,3 +605,71 @@ type minutesOf struct {
 
 func (m *minutesOf) Name() string   { return "minutes(" + m.of.Name() + ")" }
 func (m *minutesOf) String() string { return m.Name() }
+
+
+// fieldInitValue: v is a load of field f of a module struct type that is written in exactly one
+// place of the module (the literal that builds the value: a handler struct carrying what a
+// closure used to capture); returns what is stored there.
+var fieldInitMemo = map[string]ssa.Value{}
+var fieldInitDone = map[string]bool{}
+
+func fieldInitValue(v ssa.Value) (ssa.Value, bool) {
+	if gp == nil {
+		return nil, false
+	}
+	var x ssa.Value
+	var idx int
+	switch y := plainDeref(v).(type) {
+	case *ssa.UnOp:
+		fa, ok := y.X.(*ssa.FieldAddr)
+		if !ok || y.Op != token.MUL {
+			return nil, false
+		}
+		x, idx = fa.X, fa.Field
+	case *ssa.Field:
+		x, idx = y.X, y.Field
+	default:
+		return nil, false
+	}
+	t := x.Type()
+	if pt, ok := t.Underlying().(*types.Pointer); ok {
+		t = pt.Elem()
+	}
+	named, ok := t.(*types.Named)
+	if !ok || named.Obj().Pkg() == nil || !strings.HasPrefix(named.Obj().Pkg().Path(), modPath) || named.Obj().Exported() {
+		return nil, false
+	}
+	key := fmt.Sprintf("%s.%s#%d", named.Obj().Pkg().Path(), named.Obj().Name(), idx)
+	if fieldInitDone[key] {
+		r := fieldInitMemo[key]
+		return r, r != nil
+	}
+	fieldInitDone[key] = true
+	var val ssa.Value
+	n := 0
+	for _, f := range gp.srcFns {
+		eachInstr(f, func(in ssa.Instruction) {
+			st, ok := in.(*ssa.Store)
+			if !ok {
+				return
+			}
+			fa, ok := st.Addr.(*ssa.FieldAddr)
+			if !ok || fa.Field != idx {
+				return
+			}
+			ft := fa.X.Type()
+			if pt, ok := ft.Underlying().(*types.Pointer); ok {
+				ft = pt.Elem()
+			}
+			if types.Identical(ft, named) {
+				n++
+				val = st.Val
+			}
+		})
+	}
+	if n != 1 {
+		return nil, false
+	}
+	fieldInitMemo[key] = val
+	return val, true
+}
